@@ -310,6 +310,16 @@ impl<'a> Parser<'a> {
             declarations.push(self.parse_variable_declarator()?);
         }
 
+        if kind == VariableKind::Const
+            && let Some(declarator) = declarations.iter().find(|d| d.init.is_none())
+        {
+            return Err(JsError::syntax_error(
+                "Missing initializer in const declaration",
+                declarator.span.line,
+                declarator.span.column,
+            ));
+        }
+
         self.expect_semicolon()?;
 
         let span = self.span_from(start);
@@ -871,6 +881,17 @@ impl<'a> Parser<'a> {
 
             // Abstract members declare a shape only and have no run-time presence
             if let Some(member) = self.parse_class_member()? {
+                if matches!(member, ClassMember::Constructor(_))
+                    && members
+                        .iter()
+                        .any(|m| matches!(m, ClassMember::Constructor(_)))
+                {
+                    return Err(JsError::syntax_error(
+                        "A class may only have one constructor",
+                        self.previous.span.line,
+                        self.previous.span.column,
+                    ));
+                }
                 members.push(member);
             }
         }
@@ -5799,6 +5820,18 @@ impl<'a> Parser<'a> {
                             .transpose()
                     })
                     .collect::<Result<Vec<_>, _>>()?;
+
+                // A rest element takes everything that is left: it has to come last
+                let rest_position = elements
+                    .iter()
+                    .position(|e| matches!(e, Some(Pattern::Rest(_))));
+                if rest_position.is_some_and(|i| i + 1 != elements.len()) {
+                    return Err(JsError::syntax_error(
+                        "Rest element must be last element",
+                        arr.span.line,
+                        arr.span.column,
+                    ));
+                }
 
                 Ok(Pattern::Array(ArrayPattern {
                     elements,
